@@ -67,16 +67,16 @@ package saml
 //@ ensures[C03] issuer: err == nil ==> assertion.Issuer.Value == sp.IDPMetadata.EntityID
 //@ ensures[C03] conf_recipient: err == nil ==> allConfirmations(assertion, func(sc SubjectConfirmation) bool { return confRecipient(sp, sc) })
 //@ ensures[C03] audience: err == nil && sp.ValidateAudienceRestriction == nil ==> audienceOK(sp, assertion)
-//@ ensures[C04] conf_request: err == nil ==> allConfirmations(assertion, func(sc SubjectConfirmation) bool { return confRequest(sp, sc, possibleRequestIDs) })
+//@ ensures[C04,C17] conf_request: err == nil ==> allConfirmations(assertion, func(sc SubjectConfirmation) bool { return confRequest(sp, sc, possibleRequestIDs) })
 //@ -- completeness: an assertion strictly inside all windows, addressed to this SP and answering an outstanding request is accepted
 //@ ensures[C02,C03,C04] complete: sp.ValidateAudienceRestriction == nil && assertionValid(sp, assertion, possibleRequestIDs, now) &&
 //@    audienceOK(sp, assertion) ==> err == nil
 //@ loop 1
 //@ invariant[C02] seen_window: forall(0, iter, func(k int) bool { return confWindow(assertion.Subject.SubjectConfirmations[k], now) })
 //@ invariant[C03] seen_recipient: forall(0, iter, func(k int) bool { return confRecipient(sp, assertion.Subject.SubjectConfirmations[k]) })
-//@ invariant[C04] seen_request: forall(0, iter, func(k int) bool { return confRequest(sp, assertion.Subject.SubjectConfirmations[k], possibleRequestIDs) })
+//@ invariant[C04,C17] seen_request: forall(0, iter, func(k int) bool { return confRequest(sp, assertion.Subject.SubjectConfirmations[k], possibleRequestIDs) })
 //@ loop 2 vars subjectConfirmation SubjectConfirmation
-//@ invariant[C04] nomatch: forall(0, iter, func(j int) bool { return possibleRequestIDs[j] != subjectConfirmation.SubjectConfirmationData.InResponseTo })
+//@ invariant[C04,C17] nomatch: forall(0, iter, func(j int) bool { return possibleRequestIDs[j] != subjectConfirmation.SubjectConfirmationData.InResponseTo })
 
 //@ -- unmarshalElement serialises el and parses it with encoding/xml: its functional meaning lives in the
 //@ -- dependencies; the contract records which element a value was read from (a call-history fact)
@@ -655,6 +655,8 @@ package saml
 //@ records built: ElementOfAssertion(a, result)
 //@ contract (*Response).Element
 //@ ensures[C06] nonnil: result != nil
+//@ assert@call[C06] CreateAttr #each (e *etree.Element, key string, value string) optional_attributes_only_when_set:
+//@    (key == "Destination" ==> value == r.Destination && r.Destination != "") && (key == "InResponseTo" ==> value == r.InResponseTo && r.InResponseTo != "")
 //@ ensures[C06] attributes: ElName(result) == "samlp:Response" && ElAttr(result, "ID", r.ID) && ElAttr(result, "Version", r.Version) &&
 //@    ElAttr(result, "IssueInstant", r.IssueInstant.Format(timeFormat)) && (r.Destination != "" ==> ElAttr(result, "Destination", r.Destination)) &&
 //@    (r.InResponseTo != "" ==> ElAttr(result, "InResponseTo", r.InResponseTo))
@@ -1087,6 +1089,8 @@ package saml
 //@ records built: ElementOfStatus(s, result)
 
 //@ contract (*AuthnRequest).Element
+//@ assert@call[C12,C13] CreateAttr #each (e *etree.Element, key string, value string) optional_attributes_only_when_set:
+//@    key == "Destination" ==> value == r.Destination && r.Destination != ""
 //@ ensures[C13] nonnil: result != nil
 //@ ensures[C12,C13] attributes: ElName(result) == "samlp:AuthnRequest" && ElAttr(result, "ID", r.ID) && ElAttr(result, "Version", r.Version) &&
 //@    ElAttr(result, "IssueInstant", r.IssueInstant.Format(timeFormat)) &&
@@ -1100,6 +1104,8 @@ package saml
 //@ records built: ElementOfAuthnRequest(r, result)
 //@ ghost func ElementOfAuthnRequest(r *AuthnRequest, el *etree.Element) bool
 //@ contract (*LogoutRequest).Element
+//@ assert@call[C12,C13] CreateAttr #each (e *etree.Element, key string, value string) optional_attributes_only_when_set:
+//@    key == "Destination" ==> value == r.Destination && r.Destination != ""
 //@ ensures[C13] nonnil: result != nil
 //@ ensures[C12,C13] attributes: ElName(result) == "samlp:LogoutRequest" && ElAttr(result, "ID", r.ID) && ElAttr(result, "Version", r.Version) &&
 //@    ElAttr(result, "IssueInstant", r.IssueInstant.Format(timeFormat)) && (r.Destination != "" ==> ElAttr(result, "Destination", r.Destination))
@@ -1110,6 +1116,10 @@ package saml
 //@ ghost func ElementOfLogoutRequest(r *LogoutRequest, el *etree.Element) bool
 //@ contract (*LogoutResponse).Element
 //@ ensures[C13] nonnil: result != nil
+//@ -- an optional attribute is written only when its field is set, whatever else the message carries (the element that is signed
+//@ -- and the element that is sent are two calls of this builder, before and after the Signature field is filled)
+//@ assert@call[C12,C13] CreateAttr #each (e *etree.Element, key string, value string) optional_attributes_only_when_set:
+//@    (key == "Destination" ==> value == r.Destination && r.Destination != "") && (key == "InResponseTo" ==> value == r.InResponseTo && r.InResponseTo != "")
 //@ ensures[C12,C13] attributes: ElName(result) == "samlp:LogoutResponse" && ElAttr(result, "ID", r.ID) && ElAttr(result, "Version", r.Version) &&
 //@    ElAttr(result, "IssueInstant", r.IssueInstant.Format(timeFormat)) && (r.Destination != "" ==> ElAttr(result, "Destination", r.Destination)) &&
 //@    (r.InResponseTo != "" ==> ElAttr(result, "InResponseTo", r.InResponseTo))
@@ -1160,6 +1170,11 @@ package saml
 //@ contract (*ServiceProvider).Metadata
 //@ requires[cfg] chain: certsOK(sp.Intermediates)
 //@ ensures[C13,C12] shape: result != nil && len(result.SPSSODescriptors) == 1 && result.EntityID == spIssuer(sp)
+//@ -- the consumer-service locations published are, character for character, the URL the SP's own requests name as
+//@ -- AssertionConsumerServiceURL (the IdP matches the two byte-wise): both are sp.AcsURL.String()
+//@ ensures[C12,C14] acs_locations_are_the_configured_url: len(result.SPSSODescriptors[0].AssertionConsumerServices) >= 1 &&
+//@    forall(0, len(result.SPSSODescriptors[0].AssertionConsumerServices), func(k int) bool {
+//@      return result.SPSSODescriptors[0].AssertionConsumerServices[k].Location == sp.AcsURL.String() })
 //@ ensures[C13] requests_signed: result.SPSSODescriptors[0].AuthnRequestsSigned != nil &&
 //@    *result.SPSSODescriptors[0].AuthnRequestsSigned == (len(sp.SignatureMethod) > 0)
 //@ ensures[C13] signing_descriptor: sp.Certificate != nil && len(sp.SignatureMethod) > 0 ==>
